@@ -2,3 +2,4 @@ import MirosModel.Drive.Hsm
 import MirosModel.Drive.Queue
 import MirosModel.Drive.Conc
 import MirosModel.Drive.Fabric
+import MirosModel.Drive.AO
